@@ -169,7 +169,7 @@ def wire_cfg(cfg):
     def inf(i):
         return [int(i["self"]), [[S(p), O(o, S)] for p, o in i["table"]]]
     return [int(cfg["oip"][0]), int(cfg["oip"][1]), int(cfg["cs"][0]), int(cfg["cs"][1]), 1000, 1000,
-            inf(cfg["info"][0]), inf(cfg["info"][1])]
+            inf(cfg["info"][0]), inf(cfg["info"][1]), int(bool(cfg.get("legacy", False)))]
 
 
 # ------------------------------------------------------------------ the real side
@@ -565,20 +565,22 @@ def run(ctx):
             case = doc["case"]
             r = eval_case(model, case["cfg"], ops=case["ops"])
             ncorpus += 1
-            if r["mismatch"]:
-                ctx.violation("corpus case %s: model and implementation differ at step %d" % (fn, r["mismatch"]["step"]),
-                              case, no_input=True, theorem="correspondence StateModel.run vs cloudsync.sync.state")
             exp = doc.get("expect")
             got = None
             if r["err"] == 0:
                 got = "RecursionError"
-            elif r["refuted"]:
+            elif r["refuted"] and not doc.get("regression"):
+                # (regression cases of fixed defects are only about their own failure: exception or a
+                # claimed clause; intermediate states may still show the open changeset finding)
                 got = r["refuted"][-1][1].split(":")[0]
             elif r["claimed"]:
                 got = r["claimed"][-1][1].split(":")[0]
             if got is not None:
                 # the real code violates the property on this exact case: known finding or VIOLATION
                 ctx.violation("corpus case %s: %s on the real SyncState (%s)" % (fn, got, doc.get("what", "")), case)
+            elif r["mismatch"]:
+                ctx.violation("corpus case %s: model and implementation differ at step %d" % (fn, r["mismatch"]["step"]),
+                              case, no_input=True, theorem="correspondence StateModel.run vs cloudsync.sync.state")
             if exp is not None and exp != got:
                 ctx.notes.append("corpus case %s expected %s, observed %s" % (fn, exp, got))
                 if exp and got is None:
